@@ -511,3 +511,24 @@ Proof.
   destruct (link_deliver g h d) as [r| | |] eqn:E; try exact IH.
   rewrite <- E. apply static_reads_cached. exact E.
 Qed.
+
+(** * Comparisons on living objects answer from the current records *)
+Definition answer_ok (x : gop * list grid * gres) : Prop :=
+  let '(o, st, r) := x in
+  match o with
+  | GCompat i j => match nth_error st i, nth_error st j with
+                   | Some g, Some h => r = GB (compatible g h) | _, _ => r = GBad end
+  | GEq i j => match nth_error st i, nth_error st j with
+               | Some g, Some h => r = GB (grid_eq g h) | _, _ => r = GBad end
+  | GTrans i j => match nth_error st i, nth_error st j with
+                  | Some g, Some h => r = GT (get_transform_to g h) | _, _ => r = GBad end
+  | _ => True
+  end.
+
+Theorem compat_current ops : forall st, Forall answer_ok (gtrace st ops).
+Proof.
+  induction ops as [|o ops IH]; intros st; simpl; [constructor|].
+  destruct (gstep st o) as [st' x] eqn:E. constructor; [|apply IH].
+  unfold answer_ok. destruct o as [i j|i j|i j|i pts|i]; simpl in E; try exact I;
+    destruct (nth_error st i), (nth_error st j); inversion E; reflexivity.
+Qed.
